@@ -2368,8 +2368,16 @@ class ProvDocument(ProvBundle):
 
         :return: :py:class:`ProvDocument`
         """
-        document = ProvDocument(self._unified_records())
-        document._namespaces = self._namespaces
+        # the new document gets its own namespace manager declaring the same
+        # namespaces; sharing the manager would let either document change
+        # the namespaces of the other
+        document = ProvDocument(
+            self._unified_records(),
+            namespaces=self._namespaces.get_registered_namespaces(),
+        )
+        default_namespace = self._namespaces.get_default_namespace()
+        if default_namespace is not None:
+            document.set_default_namespace(default_namespace.uri)
         for bundle in self.bundles:
             unified_bundle = bundle.unified()
             document.add_bundle(unified_bundle)
